@@ -33,8 +33,15 @@ func redactOptions(r *rng.R) gobuild.Options {
 	case 2:
 		o.NoRecurse = true
 	}
+	// every third program is in the legacy dialect (fields without identifiers or requiredness),
+	// compiled through the API with compile.NonStrict(): annotations must survive that path too
+	redactPrograms++
+	o.NonStrict = redactPrograms%3 == 2
+	o.ThriftRoot = o.NonStrict // the helper is always given the thrift root
 	return o
 }
+
+var redactPrograms int
 
 // scramble replaces the content of every set redacted field (for zap: also of
 // every no-log field) by another value of the same type, keeping set/unset:
@@ -217,6 +224,9 @@ func runC15(c *checker) {
 				if f.NoLog {
 					c.rep.Hist("nolog-field-shape", sd.Kind+" "+shorten(f.T.Shape(), 30))
 				}
+				if sd.Kind == "exception" && f.Redact && f.Req && f.GoName == "Message" && f.T.K == gtext.KString {
+					c.rep.Hist("redacted-field-category", "exception: required string `message`")
+				}
 			}
 		}
 		cs := c.newCaseSet("C15", b)
@@ -224,7 +234,7 @@ func runC15(c *checker) {
 		logf("%s: %d ops", b.id(), len(cs.ops))
 		cs.run()
 	}
-	c.rep.Rule = "programs placing go.redact / go.nolog on ~30% of the fields of structs, unions, exceptions and function arguments (fields of every type, required/optional/defaulted, reached through lists, sets, maps, typedefs) × {zap, --no-zap, strict enum text, no-recurse}; per struct-containing named type: values whose every string/binary leaf is a unique marker; String(), Error() (exceptions), MarshalLogObject/Array through a zapcore map encoder → token sets (labels shown, <redacted> labels, markers present, found by scanning for all markers of the value incl. fmt's []byte form and base64) vs the harness's statement of the rule and vs the model; non-interference pairs differing only under redacted (zap: + no-log) fields must render identically; non-trivial = every case; distinct by (program, op)"
+	c.rep.Rule = "programs placing go.redact / go.nolog on ~30% of the fields of structs, unions, exceptions and function arguments (fields of every type, required/optional/defaulted, reached through lists, sets, maps, typedefs) × {zap, --no-zap, strict enum text, no-recurse} × {strict IDL, legacy IDL without field identifiers/requiredness compiled with compile.NonStrict() (every third program)}; per struct-containing named type: values whose every string/binary leaf is a unique marker; String(), Error() (exceptions), MarshalLogObject/Array through a zapcore map encoder → token sets (labels shown, <redacted> labels, markers present, found by scanning for all markers of the value incl. fmt's []byte form and base64) vs the harness's statement of the rule and vs the model; non-interference pairs differing only under redacted (zap: + no-log) fields must render identically; non-trivial = every case; distinct by (program, op)"
 }
 
 func init() {
